@@ -260,7 +260,7 @@ func C14(c *core.Ctx) {
 	}
 
 	// ---- real derivations, recorded
-	nseq, maxLen := 20, 3
+	nseq, maxLen := 60, 3
 	if !c.Quick() {
 		nseq, maxLen = 150, 4
 	}
@@ -276,7 +276,7 @@ func C14(c *core.Ctx) {
 		var hist []string
 		ops := c14Ops(rng, nsvc, false)
 		for step := 0; step < maxLen; step++ {
-			if c.Quick() && s >= len(ops) && step > 0 {
+			if c.Quick() && s >= len(ops) && s < 2*len(ops) && step > 0 {
 				break // the no-name variants: one step each in the quick tier
 			}
 			op := ops[rng.Intn(len(ops))]
@@ -317,23 +317,58 @@ func C14(c *core.Ctx) {
 			ev.Leaks = []string{}
 			objs := proj.Reach(victim)
 			ev.Objects = len(objs)
-			for _, o := range objs {
-				if o.InExt {
-					continue
-				}
-				if !proj.Mutate(o) {
-					continue
-				}
-				leaked := false
-				for k, pp := range produced {
-					if proj.Dump(pp) != dumps[k] {
-						leaked = true
+			// mutate every object reachable from the result at once; if an earlier project changes, find one witness by
+			// bisection over the object paths on freshly derived results (one dump comparison per round instead of one per object)
+			mutateSet := func(v *types.Project, only map[string]bool) {
+				for _, o := range proj.Reach(v) {
+					if !o.InExt && (only == nil || only[o.Kind+" "+o.Path]) {
+						proj.Mutate(o)
 					}
 				}
-				if leaked {
-					ev.Leaks = append(ev.Leaks, o.Kind+" "+o.Path)
-					break // the receiver is damaged now; one witness is enough
+			}
+			changed := func() bool {
+				for k, pp := range produced {
+					if proj.Dump(pp) != dumps[k] {
+						return true
+					}
 				}
+				return false
+			}
+			mutateSet(victim, nil)
+			if changed() {
+				var cand []string
+				for _, o := range objs {
+					if !o.InExt {
+						cand = append(cand, o.Kind+" "+o.Path)
+					}
+				}
+				sort.Strings(cand)
+				for round := 0; len(cand) > 1 && round < 16; round++ {
+					for k, pp := range produced { // the receiver is damaged by now: compare against its current state
+						dumps[k] = proj.Dump(pp)
+					}
+					var again c14Op
+					for _, o := range c14Ops(rand.New(rand.NewSource(seedA)), nsvc, empty) {
+						if o.Name == op.Name {
+							again = o
+						}
+					}
+					v2, err2 := again.Fn(cur)
+					if err2 != nil || v2 == nil {
+						break
+					}
+					half := map[string]bool{}
+					for _, x := range cand[:len(cand)/2] {
+						half[x] = true
+					}
+					mutateSet(v2, half)
+					if changed() {
+						cand = cand[:len(cand)/2]
+					} else {
+						cand = cand[len(cand)/2:]
+					}
+				}
+				ev.Leaks = append(ev.Leaks, cand[0])
 			}
 			events = append(events, ev)
 			c.Eval(strings.Join(ev.History, ">")+fmt.Sprint(seedA), true)
